@@ -31,6 +31,57 @@ func Edit(w *World, t *tape.Tape, prof Profile) string {
 			return fmt.Sprintf("add-first-field %s.%s %s", d.Name, name, ty.Str(""))
 		}
 	}
+	if prof.Nested {
+		// one more level: a slice parameter of a (possibly already nested) sort / unique / filter /
+		// takewhile call becomes the keys of a map, so the chain needs one more generation pass than
+		// the version the old file was generated for. Parameters at the bottom of an existing chain
+		// are preferred: the old file then defines every function of the chain but the new innermost.
+		var sites, deep []*Arg
+		var visit func(c *Call, depth int)
+		visit = func(c *Call, depth int) {
+			if c == nil {
+				return
+			}
+			switch c.Plugin {
+			case "sort", "unique", "filter", "takewhile":
+				for i := range c.Args {
+					a := &c.Args[i]
+					if a.Nested != nil {
+						visit(a.Nested, depth+1)
+					} else if a.Ty != nil && a.Ty.K == "slice" && a.Ty.Elem != nil && a.Ty.Elem.K == "basic" {
+						switch a.Ty.Elem.Name {
+						case "string", "int", "int64":
+							sites = append(sites, a)
+							if depth > 0 {
+								deep = append(deep, a)
+							}
+						}
+					}
+				}
+			}
+		}
+		for _, c := range w.Calls {
+			if !c.Test && c.Curried == nil && c.Pair == nil {
+				visit(c, 0)
+			}
+		}
+		var pick []*Arg
+		if len(deep) > 0 && t.Chance(1, 3) {
+			pick = deep
+		} else if len(sites) > 0 && t.Chance(1, 8) {
+			pick = sites
+		}
+		if len(pick) > 0 {
+			a := pick[t.Intn(len(pick))]
+			k := a.Ty.Elem
+			inner := &Call{Plugin: "keys", Args: []Arg{{Param: fmt.Sprintf("m%d", g.id()), Ty: Map(k, Basic("bool"))}}, NRes: 1, ResTy: Slice(k)}
+			if f := g.finish(inner, ""); f != nil {
+				old := a.Param
+				*a = Arg{Nested: f, Ty: Slice(k)}
+				return fmt.Sprintf("deepen-chain %s -> %s(...)", old, w.FuncName(f))
+			}
+		}
+	}
 	for try := 0; try < 4; try++ {
 		k := t.Intn(11)
 		if k == 9 {
